@@ -27,12 +27,19 @@ class Chooser:
                            # later calls take their first outcome
     calls = 0
     _in_late_call = False
+    late_policy = "first"  # what a call beyond depth_limit takes: "first" | "last" | a random.Random instance
 
     def pick(self, n: int, what: str = "choice") -> int:
         if n <= 0:
             raise IndexError("choice from an empty population")
-        if n == 1 or self.muted or self._in_late_call:
+        if n == 1 or self.muted:
             return 0
+        if self._in_late_call:
+            if self.late_policy == "first":
+                return 0
+            if self.late_policy == "last":
+                return n - 1
+            return self.late_policy.randrange(n)
         if self.pos < len(self.script):
             k = self.script[self.pos]
             self.arity[self.pos] = n
@@ -181,11 +188,12 @@ def muted():
         ch.muted = old
 
 
-def explore(jp_pkg, fn: Callable[[], Any], cap: int = 50000, stop=None, depth_limit=None) -> Tuple[List[Any], bool, int]:
+def explore(jp_pkg, fn: Callable[[], Any], cap: int = 50000, stop=None, depth_limit=None, late_policy="first") -> Tuple[List[Any], bool, int]:
     """Run fn under every outcome of every random choice.  Returns (results, complete, runs).
     `stop(result)` true ends the exploration at once (a run that did not terminate: its choice script is unbounded)."""
     ch = Chooser()
     ch.depth_limit = depth_limit
+    ch.late_policy = late_policy
     results = []
     runs = 0
     CURRENT.append(ch)
